@@ -158,6 +158,31 @@ func (e *Engine) VerifyFunc(key string) {
 
 	fr.ret = func(st *State, res []Val) { fc.atReturn(st, fr, res, ts) }
 	fr.pan = func(st *State, why string) { fc.atPanic(st, fr, why, ts) }
+	// every hint must be attached to a call that exists (a hint on a vanished call is silently never checked)
+	if fs != nil {
+		for k, hs := range fs.Hints {
+			n := k
+			if n < 0 {
+				n = -n
+			}
+			if n < 1 || n > len(fr.callOrd) {
+				for _, h := range hs {
+					fc.contractError(st, h, fmt.Sprintf("hint refers to call %d but the function has %d calls", n, len(fr.callOrd)))
+				}
+			}
+		}
+		for n := range fs.Loops {
+			found := false
+			for _, li := range fr.loops {
+				if li.ordinal == n {
+					found = true
+				}
+			}
+			if !found {
+				fc.contractError(st, &Clause{Text: fmt.Sprintf("loop %d", n), File: fs.File, Line: fs.Line}, fmt.Sprintf("contract mentions loop %d but the function has %d loops", n, len(fr.loops)))
+			}
+		}
+	}
 	fc.execBlock(st, fr, fn.Blocks[0], nil)
 	if fc.aborted != "" {
 		name := key + ".translates"
